@@ -1,6 +1,8 @@
 #!/bin/sh
-# re-run every kept seeded change against the current checks (quick tier; thorough only if quick misses)
+# re-run every kept seeded change against the current checks (quick tier; thorough only if quick misses); $1 = parallel jobs
 cd "$(dirname "$0")/.." || exit 2
+jobs=${1:-4}
+log=$(mktemp -d /tmp/vf-seedall-XXXXXX)
 for d in seeded/*/; do
   id=$(basename "$d")
   extra=$(/venv/bin/python -c "
@@ -8,6 +10,9 @@ import json; m=json.load(open('$d/meta.json')); ps=[]
 for r in m.get('ran', []):
     if r['check'] not in ps: ps.append(r['check'])
 print(','.join(ps) or m['property'])")
-  echo "== $id ($extra)"
-  tools/seeded.py "$d" "$id" --props "$extra" --thorough 2>&1 | grep -E "^(repo tests|demo:|\./check)" 
+  echo "$d $id $extra"
+done | xargs -P "$jobs" -L 1 sh -c 'tools/seeded.py "$0" "$1" --props "$2" --thorough > '"$log"'/"$1".log 2>&1'
+for f in "$log"/*.log; do
+  echo "== $(basename "$f" .log)"; grep -E "^(repo tests|demo:|\./check|patch does not)" "$f"
 done
+rm -rf "$log"
